@@ -4,7 +4,7 @@
    13 elementwise_with_index 14 first 15 scalar/into_scalar 16 into_matrix 17 Matrix::into_tensor
    20 eq/similar (both argument orders).  `form` 0 = Tensor method, 1 = TensorView method over a
    source term ((0 shape data) | (1 src names) reverse | (2 src ranges) range | (3 src names)
-   access | (4 src names) transpose).  See coq/theories/Run/RunC13.v for the exact layout."""
+   access | (4 src names) transpose | (5 src masks) mask | (6 src names) rename).  See coq/theories/Run/RunC13.v for the exact layout."""
 import itertools, random
 from tools.vlib import sx
 from tools.props.c09 import elements, tshape, tbase, src_shape, random_view
@@ -110,7 +110,7 @@ def gen(tier, rng):
             op = rng.choice([1, 2, 3, 4])
             yield sx([13, op, base, dims] if op >= 3 else [13, op, rng.randrange(2), base, dims])
     # reorder / transpose of views
-    for _ in range(300 if quick else 4000):
+    for _ in range(1500 if quick else 6000):
         D = rng.randrange(1, 5)
         lens = [rng.choice([1, 2, 2, 3, 3, 4]) for _ in range(D)]
         names = rng.sample(range(8), D)
@@ -159,7 +159,7 @@ def gen(tier, rng):
         for form in (0, 1):
             yield sx([13, 8, form, base, 3, -7]); yield sx([13, 10, form, base, -2, 5])
             yield sx([13, 9, form, base]); yield sx([13, 11, form, base]); yield sx([13, 14, form, base])
-    for _ in range(400 if quick else 5000):
+    for _ in range(1500 if quick else 6000):
         D = rng.randrange(1, 5)
         lens = [rng.choice([1, 2, 2, 3, 3, 4]) for _ in range(D)]
         names = rng.sample(range(8), D)
@@ -205,6 +205,24 @@ def gen(tier, rng):
         form = 1 if left[0] != 0 else rng.randrange(2)
         yield sx([13, rng.choice([12, 13]), form, left, right])
 
+    # ---------------- D = 5, 6: maps, elementwise, equality on sampled shapes
+    for D in (5, 6):
+        for _ in range(30 if quick else 300):
+            lens = [rng.choice([1, 2, 2, 3]) for _ in range(D)]
+            while elements(lens) > 150:
+                lens[rng.randrange(D)] = 1
+            names = rng.sample(range(10), D)
+            base = tbase(lens, names, off=rng.randrange(-20, 20))
+            form = rng.randrange(2)
+            yield sx([13, 9, form, base]); yield sx([13, 11, form, base])
+            yield sx([13, 13, form, base, tbase(lens, names, off=400)])
+            perm = list(range(D)); rng.shuffle(perm)
+            yield sx([13, 20, base, materialise(base, perm)])
+            yield sx([13, 20, base, [3, base, [names[p] for p in perm]]])
+            tgt = divisor_shapes(elements(lens), rng.randrange(0, 5))
+            if tgt:
+                yield sx([13, 6, base, tshape(rng.choice(tgt), rng.sample(range(10), len(tgt[0])))])
+
     # ---------------- scalars, matrices
     for v in (-3, 0, 7):
         s = [0, [], [v]]
@@ -238,7 +256,7 @@ def gen(tier, rng):
             rel.append([4, base, [base[1][p][0] for p in perm]])      # lazily transposed
         for r in rel:
             yield sx([13, 20, base, r])
-    for _ in range(400 if quick else 6000):
+    for _ in range(2500 if quick else 10000):
         D = rng.randrange(1, 5)
         lens = [rng.choice([1, 2, 2, 3, 3]) for _ in range(D)]
         names = rng.sample(range(8), D)
@@ -257,9 +275,11 @@ def gen(tier, rng):
 
 
 def nontrivial(case, model_out):
-    """an accepted transformation of a tensor with more than one element, a rejected one, or an
-    equality / similarity verdict"""
-    return True
+    """an accepted transformation whose result has at least two elements, a rejected one (panic /
+    error), or an equality / similarity verdict"""
+    if case.startswith("(13 20"):
+        return True
+    return model_out.startswith("(2)") or model_out.startswith("(1") or model_out.count("(") >= 6
 
 
 def distribution(lines):
